@@ -1,7 +1,7 @@
 (* C20 - Build labels round-trip and target patterns select exactly their targets.
    This file holds only the statement, the property theorems and their non-vacuity examples. *)
 From Coq Require Import String.
-From PlzV Require Import Base.Harness Gen.LabelTables Model.C20 Proof.C20_Select Proof.C20_Parse.
+From PlzV Require Import Base.Harness Gen.LabelTables Model.C20 Proof.C20_Select Proof.C20_Parse Proof.C20_Exclude.
 Local Open Scope list_scope.
 
 (* "Every valid label string parses to a label whose printed form parses back to the same label": every string the
@@ -43,7 +43,21 @@ Definition selection_exact : Prop :=
         \/ (exists w, In w whitelist /\ matches_selects w (t_label t))
         \/ (exists d, In d dirs /\ (l_pkg (t_label t) = d \/ exists r, l_pkg (t_label t) = d ++ 47%N :: r))).
 
-Definition C20_statement : Prop := roundtrip_all /\ selection_exact.
+(* "... wherever patterns are used: ... include and exclude" - for as long as the process runs.  One plz process keeps ONE
+   exclude option slice; src/please.go appends plain excludes to it before every build and hands it to a fresh state
+   (query changes builds twice, watch builds on every change).  For every history of appends and builds (Model.C20.op) and
+   every build in it: SetIncludeAndExclude leaves the slice as it found it, the slice is the initial one plus the appends,
+   and the build excludes exactly the labels that some label-shaped entry of the slice selects (Proof/C20_Exclude.v
+   build_exact) - so --exclude //p/... keeps p and what lies below it, and nothing else, out of the first build and of
+   every later one. *)
+Definition exclude_stable : Prop :=
+  (forall et0 arr arr' ex et, set_include_exclude et0 arr = Some (arr', ex, et) -> arr' = arr)
+  /\ (forall probes ops arr0 obs, run_session probes ops arr0 = Some obs -> Forall (build_exact probes arr0) obs)
+  /\ (forall probes ops arr0 obs e p sr, run_session probes ops arr0 = Some obs ->
+        In e arr0 -> looks_like_label e = true -> parse_exclude e = Some (L p dots sr) ->
+        forall o q m sr', In o obs -> under p q -> excluded (obs_et o) (L q m sr') = true).
+
+Definition C20_statement : Prop := roundtrip_all /\ selection_exact /\ exclude_stable.
 
 (* The code refutes the round trip: //.a parses to //.a:.a, which prints as "//.a:.a" and is rejected. *)
 Theorem C20_refuted : ~ C20_statement.
@@ -56,7 +70,9 @@ Print Assumptions C20_refuted.
    - every string the parser accepts (with any well-formed subrepo argument) round-trips unless the label it parses to is
      in one of the three defect classes (executable classifier Model.C20.defect_class), and these are the same labels;
    - the parser never runs out of fuel (the model's recursion bound is not an assumption);
-   - the whole selection part of the statement. *)
+   - the whole selection part of the statement;
+   - the whole exclude-over-a-process part of the statement (follow-up): it rests on Gen.sie_exclude_init = InitNil, the
+     initialisation of state.Exclude translated from the source. *)
 Definition C20_partial_statement : Prop :=
   (forall l cur, wf l -> try_parse (print l) cur [] = Parsed l)
   /\ (forall t cur sr l cur', valid_pkg cur = true -> sr_ok sr -> try_parse t cur sr = Parsed l -> defect_class l = None ->
@@ -65,14 +81,16 @@ Definition C20_partial_statement : Prop :=
   /\ (forall t cur sr l, valid_pkg cur = true -> sr_ok sr -> try_parse t cur sr = Parsed l ->
         valid_pkg (l_pkg l) = true /\ sr_ok (l_sub l) /\ l_name l <> [])
   /\ (forall t cur sr, try_parse t cur sr <> OutOfFuel)
-  /\ selection_exact.
+  /\ selection_exact
+  /\ exclude_stable.
 
 Theorem C20_partial : C20_partial_statement.
 Proof.
   exact (conj (fun l cur H => roundtrip_wf l cur H) (conj roundtrip_parsed (conj wf_defect_none (conj parsed_label_inv
         (conj try_parse_never_out_of_fuel
-        (conj includes_spec (conj matches_spec (conj includes_no_sibling (conj matches_no_sibling (conj all_selects_exactly
-        (conj selected_packages_spec (conj excluded_spec (conj can_see_spec (conj is_experimental_spec validate_sandbox_spec)))))))))))))).
+        (conj (conj includes_spec (conj matches_spec (conj includes_no_sibling (conj matches_no_sibling (conj all_selects_exactly
+        (conj selected_packages_spec (conj excluded_spec (conj can_see_spec (conj is_experimental_spec validate_sandbox_spec)))))))))
+        (conj sie_args_unchanged (conj session_exact session_dots_persists)))))))).
 Qed.
 Print Assumptions C20_partial.
 
@@ -108,3 +126,16 @@ Example C20_selection_nonvacuous :
   /\ validate_sandbox [p] [lit "exp"] (T (L (lit "exp/x") (lit "t") []) false false false None) = true
   /\ opts_out (T (L (lit "pfoo") (lit "t") []) false false false None).
 Proof. vm_compute. repeat split; try reflexivity. right; left; reflexivity. Qed.
+
+(* The exclude part is about real histories: `plz query changes --exclude //p/...` (two appends, build, append, build) runs,
+   both builds exclude //p:a and //p/q:b and neither excludes the sibling //pfoo:c; the option slice is unchanged by the
+   builds.  With the in-place initialisation the same history loses the pattern (Proof/C20_Exclude.v). *)
+Example C20_exclude_nonvacuous :
+  let m := [lit "manual"; lit "manual:linux_amd64"] in
+  let probes := [L (lit "p") (lit "a") []; L (lit "p/q") (lit "b") []; L (lit "pfoo") (lit "c") []] in
+  looks_like_label (lit "//p/...") = true /\ parse_exclude (lit "//p/...") = Some (L (lit "p") dots [])
+  /\ option_map (map obs_row) (run_session probes [OAppend m; OAppend m; OBuild; OAppend m; OBuild] [lit "//p/..."])
+     = Some [[true; true; false]; [true; true; false]]
+  /\ option_map (map obs_arr) (run_session probes [OAppend m; OBuild; OBuild] [lit "//p/..."])
+     = Some [lit "//p/..." :: m; lit "//p/..." :: m].
+Proof. vm_compute. repeat split; reflexivity. Qed.
